@@ -201,4 +201,206 @@ theorem initial_size (ci : CfgInput) (pre : List Op) (hpre : ∀ op ∈ pre, not
 example : (step (run (init .absent) [.adv 5, .scs 3 .ready [], .reserr]) (.ccs 1)).1.scRefs.length = 1 := by
   decide +kernel
 
+/-! ### … also when earlier resolver updates carried no addresses (F26) -/
+
+/-- no connection exists yet, no picker was published, nothing is in flight; the configuration may
+    already have been fixed by an earlier resolver update whose address list was empty -/
+structure Bare (ci : CfgInput) (s : St) : Prop where
+  cin : s.cfgIn = ci
+  cfg : s.cfg = none ∨ s.cfg = some (initialCfg ci)
+  scRefs : s.scRefs = []
+  scStates : s.scStates = []
+  refs : s.refs = []
+  rmap : s.refreshingMap = []
+  calls : s.calls = []
+  waiters : s.waiters = []
+  published : s.published = []
+  held : s.held = []
+
+/-- operations before the first resolver update that carries addresses -/
+def noAddrs : Op → Prop
+  | .ccs v => v = 0
+  | _ => True
+
+theorem bare_init (ci : CfgInput) : Bare ci (init ci) :=
+  ⟨rfl, Or.inl rfl, rfl, rfl, rfl, rfl, rfl, rfl, rfl, rfl⟩
+
+theorem addSubConn_noaddrs {s : St} (ha : s.addrs = 0) : (addSubConn s).1 = s ∧ (addSubConn s).2.1 = false := by
+  simp [addSubConn, ccNewSubConn, ha]
+
+theorem enforce_noaddrs {s : St} (ha : s.addrs = 0) (min fuel : Nat) : (enforceMinSize s min fuel).1 = s := by
+  cases fuel with
+  | zero => rfl
+  | succ fuel =>
+    unfold enforceMinSize
+    split
+    · have h := addSubConn_noaddrs ha
+      generalize addSubConn s = r at h ⊢
+      obtain ⟨s1, ok, ev⟩ := r
+      simp only at h
+      obtain ⟨h1, h2⟩ := h
+      subst h1; subst h2
+      rfl
+    · rfl
+
+theorem updateAll_nil (s : St) : updateAll s [] = (s, []) := rfl
+
+theorem bare_ccs0 {ci : CfgInput} {s : St} (h : Bare ci s) : Bare ci (opCcs s 0).1 := by
+  unfold opCcs
+  have hconf : (ccsConfigure { s with addrs := 0 }).1 = { s with addrs := 0, cfg := some (initialCfg ci) } := by
+    unfold ccsConfigure
+    rcases h.cfg with hc | hc
+    · simp only [hc]
+      rw [enforce_noaddrs (by rfl), h.cin]
+    · simp only [hc]
+  generalize ccsConfigure { s with addrs := 0 } = r1 at hconf ⊢
+  obtain ⟨s1, ev0⟩ := r1
+  simp only at hconf ⊢
+  subst hconf
+  have ht : ccsTargets { s with addrs := 0, cfg := some (initialCfg ci) } = [] := by
+    unfold ccsTargets sortedKeys
+    simp [h.scRefs, h.rmap]
+  rw [ht, updateAll_nil]
+  simp only [h.scRefs, List.isEmpty_nil, ↓reduceIte]
+  rw [enforce_noaddrs (by rfl)]
+  exact ⟨h.cin, Or.inr rfl, rfl, h.scStates, h.refs, h.rmap, h.calls, h.waiters, h.published, h.held⟩
+
+theorem bare_stepCore {ci : CfgInput} {s : St} (h : Bare ci s) (op : Op) (hop : noAddrs op) :
+    Bare ci (stepCore s op).1 := by
+  cases op with
+  | ccs v =>
+    have : v = 0 := hop
+    subst this
+    exact bare_ccs0 h
+  | reserr => exact h
+  | scs sc st order =>
+    have hl : lookup s.refreshingMap sc = none := by rw [h.rmap]; rfl
+    have hs : stateOf s sc = none := by unfold stateOf; rw [h.scStates]; rfl
+    simp only [stepCore, opScs, scsPrologue, hl, hs]
+    exact h
+  | factory n => exact ⟨h.cin, h.cfg, h.scRefs, h.scStates, h.refs, h.rmap, h.calls, h.waiters, h.published, h.held⟩
+  | adv ns => exact ⟨h.cin, h.cfg, h.scRefs, h.scStates, h.refs, h.rmap, h.calls, h.waiters, h.published, h.held⟩
+  | pick call pn m ctx dl req =>
+    have hu : callIdUsed s call = false := by unfold callIdUsed; rw [h.calls, h.waiters, h.held]; rfl
+    have hb : pickerBusy s pn = false := by unfold pickerBusy; rw [h.held]; rfl
+    have hp : s.published[pn]? = none := by rw [h.published]; rfl
+    simp only [stepCore, opPick, hu, hb, hp]
+    exact h
+  | ctxdone call =>
+    have hf : s.waiters.find? (fun w => w.id == call) = none := by rw [h.waiters]; rfl
+    simp only [stepCore, opCtxDone, hf]
+    exact h
+  | done call err reply =>
+    have hf : s.calls.find? (fun c => c.id == call) = none := by rw [h.calls]; rfl
+    simp only [stepCore, opDone, hf]
+    exact h
+  | pickHold call pn m ctx dl req =>
+    have hu : callIdUsed s call = false := by unfold callIdUsed; rw [h.calls, h.waiters, h.held]; rfl
+    have hb : pickerBusy s pn = false := by unfold pickerBusy; rw [h.held]; rfl
+    have hp : s.published[pn]? = none := by rw [h.published]; rfl
+    have hw : wouldGrow s pn m ctx req = false := by unfold wouldGrow; rw [hp]
+    simp only [stepCore, opPickHold, opPick, hu, hb, hp, hw]
+    exact h
+  | resume call =>
+    have hf : s.held.find? (fun x => x.1 == call) = none := by rw [h.held]; rfl
+    simp only [stepCore, opResume, hf]
+    exact h
+
+theorem bare_step {ci : CfgInput} {s : St} (h : Bare ci s) (op : Op) (hop : noAddrs op) : Bare ci (step s op).1 := by
+  have h1 := bare_stepCore h op hop
+  unfold step
+  generalize stepCore s op = r at h1 ⊢
+  obtain ⟨s1, ev⟩ := r
+  simp only at h1 ⊢
+  rw [wake_no_waiters h1.waiters]
+  exact h1
+
+theorem bare_run (ci : CfgInput) (ops : List Op) (hall : ∀ op ∈ ops, noAddrs op) : Bare ci (run (init ci) ops) := by
+  unfold run
+  suffices h : ∀ s, Bare ci s → Bare ci (ops.foldl (fun s op => (step s op).1) s) from h _ (bare_init ci)
+  induction ops with
+  | nil => intro s h; exact h
+  | cons op ops ih =>
+    intro s h
+    exact ih (fun o ho => hall o (List.mem_cons_of_mem _ ho)) _ (bare_step h op (hall op List.mem_cons_self))
+
+/-- **C03 (F26)** after the first resolver update *with a non-empty address list* (and a factory that
+    works) the pool holds exactly `max(1, minSize)` connections — whatever happened before, earlier
+    resolver updates with an empty list (whose creation attempts all failed) included -/
+theorem initial_size_nonempty (ci : CfgInput) (pre : List Op) (hpre : ∀ op ∈ pre, noAddrs op) (ver : Nat) (hver : ver ≠ 0)
+    (hfac : (run (init ci) pre).failN = 0) :
+    (step (run (init ci) pre) (.ccs ver)).1.scRefs.length = (initialCfg ci).min ∧ 1 ≤ (initialCfg ci).min := by
+  have hb := bare_run ci pre hpre
+  have t := tables_run ci pre
+  generalize run (init ci) pre = s at hb t hfac
+  have hmin1 : 1 ≤ (initialCfg ci).min := by
+    rw [initialCfg_min]; cases ci with
+    | given c => simp only; omega
+    | absent => exact Nat.le_refl _
+  refine ⟨?_, hmin1⟩
+  have hw : ∀ s' : St, (wakeWaiters s').1.scRefs = s'.scRefs := fun s' => (sameC_wake s').1.1
+  unfold step
+  simp only [stepCore]
+  generalize hr : opCcs s ver = r
+  obtain ⟨s3, ev⟩ := r
+  simp only
+  rw [hw s3]
+  have : s3 = (opCcs s ver).1 := by rw [hr]
+  rw [this]
+  rcases hb.cfg with hc | hc
+  · -- the configuration is still to be fixed: the configure stage creates the pool
+    have t0 : Tables { s with addrs := ver, cfg := some (initialCfg s.cfgIn) } :=
+      tables_of_same t ⟨rfl, rfl, rfl, rfl, rfl, rfl, rfl⟩
+    have hlen := enforce_len (initialCfg s.cfgIn).min (initialCfg s.cfgIn).min
+      { s with addrs := ver, cfg := some (initialCfg s.cfgIn) } t0 hver hfac (by simp only; omega)
+    have h0 : ({ s with addrs := ver, cfg := some (initialCfg s.cfgIn) } : St).scRefs.length = 0 := by
+      show s.scRefs.length = 0
+      rw [hb.scRefs]; rfl
+    rw [h0, Nat.zero_max] at hlen
+    have hconf : (ccsConfigure { s with addrs := ver }).1.scRefs.length = (initialCfg ci).min := by
+      unfold ccsConfigure
+      simp only [hc]
+      rw [← hb.cin]
+      exact hlen
+    unfold opCcs
+    generalize ccsConfigure { s with addrs := ver } = r1 at hconf ⊢
+    obtain ⟨s1, ev0⟩ := r1
+    simp only at hconf ⊢
+    have hu := (updateAll_sameT s1 (ccsTargets s1)).2.1
+    generalize updateAll s1 (ccsTargets s1) = r2 at hu ⊢
+    obtain ⟨s2, ev1⟩ := r2
+    simp only at hu ⊢
+    have hne : s2.scRefs.isEmpty = false := by
+      rw [hu]
+      cases hs : s1.scRefs with
+      | nil => rw [hs] at hconf; simp at hconf; omega
+      | cons _ _ => rfl
+    simp only [hne, Bool.false_eq_true, ↓reduceIte]
+    rw [hu]; exact hconf
+  · -- the configuration was fixed by an earlier update without addresses: the empty pool is created now
+    unfold opCcs
+    have hconf : ccsConfigure { s with addrs := ver } = ({ s with addrs := ver }, []) := by
+      unfold ccsConfigure; simp only [hc]
+    rw [hconf]
+    simp only
+    have ht : ccsTargets { s with addrs := ver } = [] := by
+      unfold ccsTargets sortedKeys
+      simp [hb.scRefs, hb.rmap]
+    rw [ht, updateAll_nil]
+    have he : ({ s with addrs := ver } : St).scRefs.isEmpty = true := by
+      show s.scRefs.isEmpty = true
+      rw [hb.scRefs]; rfl
+    simp only [he, ↓reduceIte, hc]
+    have t0 : Tables { s with addrs := ver, cfg := some (initialCfg ci) } := tables_of_same t ⟨rfl, rfl, rfl, rfl, rfl, rfl, rfl⟩
+    have hlen := enforce_len (initialCfg ci).min (initialCfg ci).min { s with addrs := ver, cfg := some (initialCfg ci) } t0 hver hfac (by simp only; omega)
+    have h0 : ({ s with addrs := ver, cfg := some (initialCfg ci) } : St).scRefs.length = 0 := by
+      show s.scRefs.length = 0
+      rw [hb.scRefs]; rfl
+    rw [h0, Nat.zero_max] at hlen
+    exact hlen
+
+/-- the case the repair is about: minSize 3, a first update without addresses, then one with -/
+example : (step (run (init (.given { min := 3, max := 4, wm := 100, fb := false, rr := false, uc := 0, ums := 0, methods := true }))
+    [.ccs 0, .reserr, .ccs 0]) (.ccs 1)).1.scRefs.length = 3 := by decide +kernel
+
 end GcpVerif.Pool
